@@ -45,6 +45,28 @@ type hostileOut struct {
 }
 type keyStruct struct{ a, b int }
 
+// valSvc is registered by value: only *valSvc has the methods of the service
+// interfaces (Base has pointer receivers).
+type valSvc struct{ kit.Base }
+
+type inI0 struct {
+	godi.In
+	A kit.I0
+}
+type inI0Named struct {
+	godi.In
+	A kit.I0 `name:"a"`
+}
+type inI0Group struct {
+	godi.In
+	A []kit.I0 `group:"g"`
+}
+type inI0Opt struct {
+	godi.In
+	A kit.I0 `optional:"true"`
+	B []kit.I0 `group:"g" optional:"true"`
+}
+
 type hostile struct {
 	name string
 	v    any
@@ -108,6 +130,49 @@ func hostileServices() []hostile {
 	}
 }
 
+// chainServices are providers of the interface I0 whose value is unusual (nil,
+// a struct value that only implements I0 through its pointer, ...) and
+// consumers that pull I0 in through every injection path. Each alone is
+// harmless; the pairs exercise the argument builders.
+func chainServices() []hostile {
+	return []hostile{
+		{"i0-nil", func() kit.I0 { return nil }},
+		{"i0-nil-second", func() (*kit.N4, kit.I0) { return &kit.N4{}, nil }},
+		{"i0-nil-first", func() (kit.I0, *kit.N4) { return nil, &kit.N4{} }},
+		{"i0-ok", func() kit.I0 { return &kit.N0{} }},
+		{"i0-value-instance", valSvc{}},
+		{"i0-value-ctor", func() valSvc { return valSvc{} }},
+		{"i0-ptr-instance", &valSvc{}},
+		{"take-i0-param", func(x kit.I0) *kit.N2 { return &kit.N2{} }},
+		{"take-i0-field", func(p inI0) *kit.N2 { return &kit.N2{} }},
+		{"take-i0-named", func(p inI0Named) *kit.N2 { return &kit.N2{} }},
+		{"take-i0-group", func(p inI0Group) *kit.N3 { return &kit.N3{} }},
+		{"take-i0-opt", func(p inI0Opt) *kit.N3 { return &kit.N3{} }},
+		{"take-i0-slice", func(xs []kit.I0) *kit.N3 { return &kit.N3{} }},
+	}
+}
+
+func chainOptions(rt *rapid.T) ([]godi.AddOption, string) {
+	pool := []struct {
+		n string
+		o godi.AddOption
+	}{
+		{"", nil}, {"", nil}, {"name-a", godi.Name("a")}, {"group-g", godi.Group("g")}, {"group-g", godi.Group("g")}, {"as-i0", godi.As[kit.I0]()},
+		{"as-i0", godi.As[kit.I0]()}, {"as-i0-i1", godi.As[kit.I0]()},
+	}
+	n := rapid.IntRange(0, 2).Draw(rt, "nchainopts")
+	var opts []godi.AddOption
+	var names []string
+	for i := 0; i < n; i++ {
+		p := rapid.SampledFrom(pool).Draw(rt, "chainopt")
+		opts = append(opts, p.o)
+		if p.n != "" {
+			names = append(names, p.n)
+		}
+	}
+	return opts, strings.Join(names, "+")
+}
+
 func genericCtor[T any]() T { var z T; return z }
 
 func hostileOptions(rt *rapid.T) ([]godi.AddOption, string) {
@@ -156,6 +221,7 @@ func TestC15Misuse(t *testing.T) {
 	col := evid.New("C15", "api-misuse", "random sequences of public API calls with hostile arguments: Add* with nil / typed-nil / non-function values of every kind, constructors with unsupported or odd signatures (channel, unsafe pointer, variadic, value-type error results, error-only, named/pointer In, pointer Out, nil results, panicking), 0-3 hostile options (nil, Name+Group, backquotes, As of non-interfaces/reserved types), then Build and Get/GetKeyed/GetGroup/CreateScope/Resolve*/FromContext with nil types, nil and exotic hashable keys, empty groups, nil contexts, nil providers, on live and closed providers and scopes; oracle: recover() around every call - nothing panics; non-trivial = a call with >=2 hostile arguments or a hostile constructor that reaches Build/resolution")
 	defer col.Flush()
 	svcs := hostileServices()
+	chain := chainServices()
 	keys := hostileKeys()
 	types := hostileTypes()
 	rapid.Check(t, func(rt *rapid.T) {
@@ -175,9 +241,18 @@ func TestC15Misuse(t *testing.T) {
 		}
 		nadd := rapid.IntRange(0, 6).Draw(rt, "nadd")
 		accepted := 0
+		chainMode := rapid.IntRange(0, 2).Draw(rt, "chain") == 0
 		for i := 0; i < nadd; i++ {
-			h := rapid.SampledFrom(svcs).Draw(rt, "svc")
-			opts, on := hostileOptions(rt)
+			var h hostile
+			var opts []godi.AddOption
+			var on string
+			if chainMode && rapid.IntRange(0, 3).Draw(rt, "fromchain") != 0 {
+				h = rapid.SampledFrom(chain).Draw(rt, "chainsvc")
+				opts, on = chainOptions(rt)
+			} else {
+				h = rapid.SampledFrom(svcs).Draw(rt, "svc")
+				opts, on = hostileOptions(rt)
+			}
 			life := rapid.IntRange(0, 3).Draw(rt, "life")
 			if on != "" {
 				hostileArgs++
@@ -238,6 +313,25 @@ func TestC15Misuse(t *testing.T) {
 					}
 				}
 			})
+		}
+		if chainMode {
+			// pull everything through the argument builders once
+			for k, tgt := range targets {
+				tgt := tgt
+				for _, ty := range []reflect.Type{kit.RType(kit.NumD + 2), kit.RType(kit.NumD + 3), kit.RType(kit.NumD + 4), kit.RType(kit.TI0)} {
+					ty := ty
+					check(fmt.Sprintf("t%d.sweep(%v)", k, ty), func() {
+						_, _ = tgt.Get(ty)
+						_, _ = tgt.GetKeyed(ty, "a")
+						_, _ = tgt.GetGroup(ty, "g")
+					})
+				}
+				check(fmt.Sprintf("t%d.sweep(typed)", k), func() {
+					_, _ = godi.Resolve[kit.I0](tgt)
+					_, _ = godi.ResolveKeyed[kit.I0](tgt, "a")
+					_, _ = godi.ResolveGroup[kit.I0](tgt, "g")
+				})
+			}
 		}
 		ncalls := rapid.IntRange(0, 12).Draw(rt, "ncalls")
 		closedSome := false
@@ -316,7 +410,7 @@ func TestC15Misuse(t *testing.T) {
 		}
 		_ = closedSome
 		canon := strings.Join(trace, " ; ")
-		col.Case(hostileArgs >= 2 || (accepted > 0 && p != nil), canon, canon, fmt.Sprintf("accepted=%d", min(accepted, 3)), fmt.Sprintf("built=%v", p != nil))
+		col.Case(hostileArgs >= 2 || (accepted > 0 && p != nil), canon, canon, fmt.Sprintf("accepted=%d", min(accepted, 3)), fmt.Sprintf("built=%v", p != nil), fmt.Sprintf("chain=%v", chainMode))
 	})
 }
 
@@ -573,9 +667,21 @@ func TestC15Faults(t *testing.T) {
 			}
 		}
 		if f == nil && y.Build.Err == nil {
-			obs, _ := y.observations()
+			obs, problems := y.observations()
 			if f = y.checkC02(obs); f != nil {
 				f = fail("C15", "retry-consistent", f.Oracle+"/"+f.Sig, "after the failure and retry: %s", f.Msg)
+			}
+			// nothing of the failure is remembered: every constructor invoked from the
+			// retry on receives all its registered dependencies again, optional ones
+			// included (the failed attempt itself may have swallowed an optional one)
+			if f == nil && !duringBuild && failingOp >= 0 && len(y.R.Obs) > failingOp+2 {
+				from := y.R.Obs[failingOp+2].StartSeq
+				for _, p := range problems {
+					if p.Inv != nil && p.Inv.StartSeq > from {
+						f = fail("C15", "retry-consistent", p.Oracle+"/"+p.Sig, "after the failure and retry: %s", p.Msg)
+						break
+					}
+				}
 			}
 		}
 		if f == nil {
